@@ -28,7 +28,7 @@ def run(chk):
         for k in range(nrules):
             g = condgen.Gen(r.fork(), k, 3)
             trees.append(g.bexpr(r.range(1, 5)))
-        decl = " ".join('$_s%d = "%s"' % (j, strs[j].decode()) for j in range(condgen.NSTR))
+        decl = " ".join('$%s = "%s"' % (condgen.sid(j), strs[j].decode()) for j in range(condgen.NSTR))
         src = ""
         for k, t in enumerate(trees):
             src += "rule %s { strings: %s condition: %s }\n" % (names[k], decl, condgen.Printer(names).raw(t))
